@@ -134,7 +134,7 @@ mut("c18_pcgrad_shared_order", "aggregation/pcgrad.py",
 mut("c18_pcgrad_order_ignored", "aggregation/pcgrad.py",
     "            for j in permutation:",
     "            for j in sorted(permutation.tolist()):",
-    ["C18"])
+    ["C18"], expect=0)  # a fixed order is one of the admissible orders: the statement allows whatever orders are drawn
 mut("c18_graddrop_leak_misweighted", "aggregation/graddrop.py",
     "            vector += (leak[i] + (1 - leak[i]) * M_i) * matrix[i]",
     "            vector += (leak[i] + (1 - leak[(i + 1) % len(matrix)]) * M_i) * matrix[i]",
